@@ -345,7 +345,7 @@ func (r *Report) writeEvidence(tot, dis, nfail int, kf []map[string]string) {
 		distinct[o.Key()] = true
 	}
 	cov := map[string]any{
-		"explanation":         r.Explanation,
+		"explanation":         r.Explanation + " — The letters above name the rules of the first design; every rule that ran, including those added after seeded variants, is listed with its statement, instance floor and counts under coverage.rules, and DESIGN.md §3 describes each.",
 		"not_decided":         r.NotDecided,
 		"rules":               rules,
 		"units":               r.Units,
